@@ -1005,11 +1005,36 @@ class Session:
                 self.viol("C10.project-crash", {"C10"}, i, rep, "project algebra raised %s" % type(e).__name__, "crash")
         return {"op": "project", "outcome": "ok", "p": np.asarray(p)}
 
+    def subtrace_sites(self, src):
+        """(static function whose call sites get_subtrace reaches from the root,
+        batch length or None): static root, the executed branch of a root switch /
+        or_else, or the kernel of a root vmap / repeat / scan, through wrappers."""
+        core = unwrap(self.node)
+        k = core["k"]
+        if k == "static":
+            return core, None
+        if k in ("switch", "or_else"):
+            brs = core["branches"] if k == "switch" else [core["a"], core["b"]]
+            rargs = self.ref_args(src.args)
+            if self.node["k"] != k:
+                return None, None  # index / flag computed by a wrapper's pre
+            if k == "switch":
+                j = min(max(int(rargs[0]), 0), len(brs) - 1)
+            else:
+                j = 0 if bool(rargs[0]) else 1
+            b = unwrap(brs[j])
+            return (b, None) if b["k"] == "static" else (None, None)
+        if k in ("vmap", "repeat", "scan"):
+            inner = unwrap(core["inner"])
+            if inner["k"] == "static" and core["n"] > 0:
+                return inner, core["n"]
+        return None, None
+
     def step_subtrace(self, rep, i, st):
         src = rep.slots.get(st["src"])
         if src is None:
             return {"op": "subtrace", "outcome": "skipped:no-src"}
-        sr = static_root(self.node)
+        sr, batch = self.subtrace_sites(src)
         if sr is None:
             return {"op": "subtrace", "outcome": "skipped:not-static"}
         n_ok = 0
@@ -1017,22 +1042,40 @@ class Session:
             a = s["addr"]
             key = a[0] if len(a) == 1 else tuple(a)
             pre = tuple(a)
+            idxs = [()] if batch is None else [(j,) for j in range(batch)]
             try:
                 sub = src.tr.get_subtrace(key)
-                sub_addrs = [x[len(pre) :] for x in self.uni_addrs if x[: len(pre)] == pre]
-                sx = obs.x_from_obs(obs.read_choices(sub.get_choices(), sub_addrs))
                 sc = np.asarray(sub.get_score())
+                chm = sub.get_choices()
+                got = {}
+                for ip in idxs:
+                    full = ip + pre
+                    sub_addrs = [x[len(full) :] for x in self.uni_addrs if x[: len(full)] == full]
+                    got[ip] = obs.x_from_obs(obs.read_choices(chm, [ip + x for x in sub_addrs]))
             except Exception as e:
-                self.viol("C34.subtrace-crash", {"C34"}, i, rep, "get_subtrace(%r) raised %s: %s" % (key, type(e).__name__, str(e)[:200]), "crash")
+                self.viol("C34.subtrace-crash", {"C34"} | (self.pp & {"C13"}), i, rep, "get_subtrace(%r) raised %s: %s" % (key, type(e).__name__, str(e)[:200]), "crash")
                 continue
-            want = {x[len(pre) :]: v for x, v in src.x.items() if x[: len(pre)] == pre}
-            if not same_x(sx, want, bits=True):
-                self.viol("C34.subtrace-choices", {"C34"}, i, rep, "subtrace %r choices %s vs parent submap %s" % (key, fmt_x(sx), fmt_x(want)))
-            wsc = src.calls.get(pre)
-            if wsc is not None and not obs.close(sc.sum() if sc.shape else sc, wsc):
-                self.viol("C34.subtrace-score", {"C34"}, i, rep, "subtrace %r score %s vs call contribution %.6f" % (key, sc, wsc))
+            for ip in idxs:
+                full = ip + pre
+                want = {ip + x[len(full) :]: v for x, v in src.x.items() if x[: len(full)] == full}
+                if not same_x(got[ip], want, bits=True):
+                    self.viol("C34.subtrace-choices", {"C34"}, i, rep, "subtrace %r%s choices %s vs parent submap %s" % (key, list(ip), fmt_x(got[ip]), fmt_x(want)))
+                wsc = src.calls.get(full)
+                if wsc is None:
+                    continue
+                if batch is None:
+                    have = sc.sum() if sc.shape else sc
+                else:
+                    if sc.shape[:1] != (batch,):
+                        self.viol("C34.subtrace-score", {"C34"}, i, rep, "subtrace %r score shape %s, expected leading axis %d (stacked)" % (key, sc.shape, batch))
+                        break
+                    have = sc[ip[0]].sum()
+                if not obs.close(have, wsc):
+                    self.viol("C34.subtrace-score", {"C34"}, i, rep, "subtrace %r%s score %s vs call contribution %.6f" % (key, list(ip), have, wsc))
             n_ok += 1
         self.probe("subtrace:checked", n_ok)
+        if batch is not None:
+            self.probe("subtrace:stacked", n_ok)
         return {"op": "subtrace", "outcome": "ok", "n": n_ok}
 
     def step_abort(self, rep, i, st, perts):
